@@ -52,20 +52,20 @@ var MarkerRe = regexp.MustCompile(`@@thriftgo_insertion_point\(([$.0-9a-zA-Z_]*)
 var markerLike = regexp.MustCompile(`@@thriftgo_insertion_point`)
 
 type Entry struct {
-	Name string
-	Submitted string // submitted name
+	Name        string
+	Submitted   string // submitted name
 	RenamedFrom string // "" if it holds its submitted name
-	Content string
-	Patches map[string][]string // point -> patch texts in submission order
-	RespIdx int
+	Content     string
+	Patches     map[string][]string // point -> patch texts in submission order
+	RespIdx     int
 }
 
 type Verdict struct {
-	Class, Sig, Msg string
-	Undefined string
-	FeedErrAt int // >=0: that Feed call must return an error and end the history
+	Class, Sig, Msg        string
+	Undefined              string
+	FeedErrAt              int // >=0: that Feed call must return an error and end the history
 	Kept, Dropped, Renamed int
-	Table []*Entry
+	Table                  []*Entry
 }
 
 func (e *Entry) Expected() string {
@@ -261,4 +261,3 @@ func Judge(w *Work, resp []RespFile, same func(name, got, want string) bool) *Ve
 	}
 	return v
 }
-
